@@ -904,7 +904,8 @@ class OmniParser(PVLParser):
         """Returns True if the text before *pos*, ignoring white space
         and comments, ends with a quote character, i.e. the preceding
         value was written as a Quoted String, which can never be a
-        Parameter Name.
+        Parameter Name, or with a Statement Delimiter, i.e. the
+        preceding statement was complete.
         """
         before = self.doc[:pos]
         ws = "".join(self.grammar.whitespace)
@@ -919,7 +920,9 @@ class OmniParser(PVLParser):
                     before = before[: before.rfind(c_begin, 0, -len(c_end))]
                     break
             else:
-                return before.endswith(tuple(self.grammar.quotes))
+                return before.endswith(
+                    tuple(self.grammar.quotes) + tuple(self.grammar.delimiters)
+                )
 
     def parse(self, s: str):
         """Extends the parent function.
